@@ -7,12 +7,12 @@ HERE = os.path.dirname(os.path.dirname(os.path.abspath(__file__)))
 CHECKS = {
  "C09": ("exploration",
          "property-based round-trip testing (proptest): decode(encode(v))==v, encode(decode(b))==b, size prediction, identity (hash/signature/validity verdict via twin nodes) over generated values of every format",
-         "Generated values of every wire/disk format (all enum variants, boundary integers, 0..255 slips, payloads to 72 kB, every Message tag, real signed blocks from generated honest histories) are pushed through encode/decode both ways and through twin nodes; any asymmetric encoder/decoder edit (field order, width, truncation) changes at least one generated value's round trip.",
+         "Generated values of every wire/disk format (all enum variants, boundary integers, 0..255 slips, payloads to 72 kB, every Message tag, real signed blocks from generated honest histories) are pushed through encode/decode both ways and through twin nodes; every real block is also written to its file, pruned and restored with Block::upgrade_block_to_block_type and must come back equal (bytes, hash, utxoset keys and fee/work figures of every transaction) and acceptable to a twin node as it is; any asymmetric encoder/decoder edit (field order, width, truncation) changes at least one generated value's round trip.",
          "Equality is on serialized (consensus) fields; derived caches are excluded. Service strings exclude the separators '|' and ';' (implicit precondition of the format).",
          "DESIGN.md §3 C09"),
  "C10": ("exploration",
          "exhaustive truncation + boundary-value field corruption + random/mutational fuzzing of every peer/disk decoder with an in-process panic and peak-allocation oracle (thorough tier adds libFuzzer campaigns)",
-         "Every decoder fed by peers or disk is run on all truncations of valid encodings, on every 4-byte window of the leading 200 bytes (and embedded transaction headers) overwritten with boundary values, on every value of each leading byte, on random strings and on random mutations; a panic (caught, keyed by decoder and panic site) or an allocation above 64*len+64KiB is a violation. Totality failures are triggered by specific lengths/counts, which is exactly what systematic truncation and count corruption enumerate.",
+         "Every decoder fed by peers or disk is run on all truncations of valid encodings, on every 4-byte window of the leading 200 bytes (and embedded transaction headers) overwritten with boundary values, on every value of each leading byte, on every 32/33/64-byte window of the leading 160 bytes filled with all-zero / all-0xff / the secp256k1 group order and its neighbours (values a curve library refuses), on uniform buffers at record lengths, on random strings and on random mutations; a panic (caught, keyed by decoder and panic site) or an allocation above 64*len+64KiB is a violation. Totality failures are triggered by specific lengths/counts, which is exactly what systematic truncation and count corruption enumerate.",
          "The golden-ticket payload decoder is exercised as it is reachable: through the transaction decoder for GoldenTicket-typed transactions. ApiMessage is exercised through Message (its only caller). Allocation is measured by a process-wide counting allocator in a single-threaded run.",
          "DESIGN.md §3 C10"),
  "C03": ("exploration",
@@ -52,7 +52,7 @@ CHECKS = {
          "DESIGN.md §3 C07"),
  "C08": ("exploration",
          "property-based testing in three parts: algebraic laws of the work function over the full u64/timestamp domain; boundary-value generation around the work requirement with an independently recomputed work oracle; payout eligibility/bound invariants over accepted blocks of generated histories",
-         "(a) 1e5 (quick) random points of the floating-point work function, including powers of two and extreme timestamps, checked for monotone non-increase in elapsed time and for reaching zero after two heartbeats; (b) blocks built outside the producer's gate one millisecond before, exactly at and after the moment the independently computed routing work meets the requirement, with valid, path-less, mis-addressed, forged and gapped routing paths; (c) every fee transaction on the longest chain of generated forked histories pays only the ticket solver and keys on routing paths of the blocks being paid, never more than those blocks collected; the next block on the tip is then offered with its fee transaction extended / shortened / redirected / inflated by a re-signing producer and every variant must be refused.",
+         "(a) 1e5 (quick) random points of the floating-point work function, including powers of two and extreme timestamps, checked for monotone non-increase in elapsed time and for reaching zero after two heartbeats; (b) blocks built outside the producer's gate one millisecond before, exactly at and after the moment the independently computed routing work meets the requirement, with valid, path-less, mis-addressed, forged and gapped routing paths, each candidate delivered to a node holding the whole chain and in half of the cases also to a node that joined mid-chain (which validates without its utxoset) - both must reach the oracle's verdict; (c) every fee transaction on the longest chain of generated forked histories pays only the ticket solver and keys on routing paths of the blocks being paid, never more than those blocks collected; the next block on the tip is then offered with its fee transaction extended / shortened / redirected / inflated by a re-signing producer and every variant must be refused.",
          "The requirement curve itself (needed as a function of burn fee and time) is taken from the implementation; only its laws are checked. Senders of path-less fee-paying transactions count as eligible (documented in get_winning_routing_node).",
          "DESIGN.md §3 C08"),
  "C13": ("exploration",
